@@ -33,6 +33,8 @@ def var_bounds(kinds, tight=False):
             lb.append(v); ub.append(v)
         elif k == "odd":         # bounds that are not binary fractions (x - (x - lb) need not be lb in floating point)
             lb.append(0.1 if j % 2 == 0 else -1.0 / 3.0); ub.append(0.9 if j % 2 == 0 else 0.7)
+        elif k == "hugebox":     # large but FINITE bounds (scaled versions exceed 1e20)
+            lb.append(-1.0e19); ub.append(3.0e19)
         elif k == "bigbox":      # bounds of large magnitude (absolute activity tolerances must stay absolute)
             lb.append(-1.0e6); ub.append(2.0e6)
         elif k == "bigupper":
@@ -125,6 +127,8 @@ def row(fn, kind, n, idx=0):
         r["lb"], r["ub"] = NINF, centre + 0.5
     elif kind == "ranged":
         r["lb"], r["ub"] = centre - 0.5, centre + 0.25
+    elif kind == "freerow":  # a row without any bound (a user may keep it for bookkeeping): it must not constrain anything
+        r["lb"], r["ub"] = NINF, INF
     elif kind == "narrow":   # ranged row of large magnitude whose width is tiny relative to it (still a range, not an equation)
         r["b"] = r.get("b", 0.0) + 1000.0
         r["lb"], r["ub"] = centre + 1000.0, centre + 1000.004
